@@ -199,4 +199,40 @@ def run (st : State) : List Op → List Out
   | [] => []
   | op :: ops => stepOut st op :: run (stepState st op) ops
 
+/-! ### repeated `OpenConnection` commands on ONE `Server` object
+
+`connection.error` lives on the `Server` object and survives an attempt: the guard of `server_connect` sets it
+when it fires and leaves it alone otherwise; `open_connection` looks at whatever is there after the hook, and a
+failed dial stores its own error.  Whether THIS attempt dials is a function of the error present after THIS
+attempt's hook. -/
+
+inductive ConnError where
+  | destinationUnknown      -- set by the self-connect guard
+  | dialError               -- str(OSError) of a failed dial
+  deriving DecidableEq, Repr
+
+/-- `connection.error` after the `server_connect` hook of this attempt -/
+def errorAfterHook (servers : List Server) (prior : Option ConnError) (dh : Text) (dp : Nat) (tp : Transport) :
+    Option ConnError :=
+  if selfConnect servers dh dp tp then some .destinationUnknown else prior
+
+/-- one `open_connection` on the object: the trace and `connection.error` afterwards -/
+def attempt (servers : List Server) (prior : Option ConnError) (dh : Text) (dp : Nat) (tp : Transport)
+    (connectOk : Bool) : List Ev × Option ConnError :=
+  match errorAfterHook servers prior dh dp tp with
+  | some e => ([Ev.hookServerConnect, Ev.hookServerConnectError, Ev.completedKilled], some e)
+  | none =>
+    if connectOk then
+      ([Ev.hookServerConnect, Ev.socketOpen, Ev.hookServerConnected, Ev.completedOk, Ev.handleConnection,
+        Ev.hookServerDisconnected], none)
+    else ([Ev.hookServerConnect, Ev.socketOpen, Ev.hookServerConnectError, Ev.completedError], some .dialError)
+
+/-- a history of attempts on one object; the listener set may differ from attempt to attempt -/
+def attempts (prior : Option ConnError) (dh : Text) (dp : Nat) (tp : Transport) :
+    List (List Server × Bool) → List (Option ConnError × List Ev)
+  | [] => []
+  | (servers, ok) :: rest =>
+    let r := attempt servers prior dh dp tp ok
+    (errorAfterHook servers prior dh dp tp, r.1) :: attempts r.2 dh dp tp rest
+
 end MitmVerif.C23
